@@ -58,7 +58,8 @@ def assemble(parts, outs=None):
     expected output of every part."""
     src, exp = "", ""
     for i, p in enumerate(parts):
-        piece = p[1] if p[0] == "lit" else "${" + p[1]["src"] + "}"
+        piece = p[1] if p[0] == "lit" else \
+            "${" + p[1]["src"].replace("\2", "&") + "}"
         if _odd_trailing(src) and piece[:1] in ("$", "{"):
             src += " "
             exp += " "
